@@ -168,8 +168,12 @@ fn main() {
         i += 2;
     }
     let mut rng = Rng::new(seed);
-    let mut client_lines = Vec::new();
-    let mut broker_lines = Vec::new();
+    // the logs are streamed: a thorough sweep produces millions of records
+    use std::io::Write;
+    let mut client_out = std::io::BufWriter::new(std::fs::File::create(&out_client).expect("create client log"));
+    let mut broker_out = std::io::BufWriter::new(std::fs::File::create(&out_broker).expect("create broker log"));
+    let mut client_records = 0u64;
+    let mut broker_records = 0u64;
     let mut runs = 0u64;
     let mut triggered = 0u64;
     let mut flagged = Vec::new();
@@ -181,17 +185,24 @@ fn main() {
         let n = dry.victim_ops;
         let total = dry.total_ops;
         ops_seen.push(n);
-        let emit = |o: Outcome, tag: serde_json::Value, cl: &mut Vec<serde_json::Value>, bl: &mut Vec<serde_json::Value>| {
-            cl.push(json!({"t": "reset", "run": tag}));
-            cl.extend(o.lines);
+        let mut emit = |o: Outcome, tag: serde_json::Value| {
+            writeln!(client_out, "{}", json!({"t": "reset", "run": tag})).expect("write");
+            for l in &o.lines {
+                writeln!(client_out, "{l}").expect("write");
+            }
+            client_records += 1 + o.lines.len() as u64;
             let mut namer = Namer::new();
-            bl.push(json!({"t": "reset", "run": 0, "out": []}));
-            bl.extend(build_trace(&mut namer, &o.items));
+            writeln!(broker_out, "{}", json!({"t": "reset", "run": 0, "out": []})).expect("write");
+            let bt = build_trace(&mut namer, &o.items);
+            for l in &bt {
+                writeln!(broker_out, "{l}").expect("write");
+            }
+            broker_records += 1 + bt.len() as u64;
         };
         if dry.flagged {
             flagged.push(json!({"program": p, "cause": "none"}));
         }
-        emit(dry, json!({"program": p, "cause": "none", "k": 0}), &mut client_lines, &mut broker_lines);
+        emit(dry, json!({"program": p, "cause": "none", "k": 0}));
         runs += 1;
         for cause in CAUSES {
             let mut ks: Vec<u64> = if points == 0 || n <= points {
@@ -217,15 +228,15 @@ fn main() {
                 if o.flagged {
                     flagged.push(json!({"program": p, "cause": cause, "k": k}));
                 }
-                emit(o, json!({"program": p, "cause": cause, "k": k}), &mut client_lines, &mut broker_lines);
+                emit(o, json!({"program": p, "cause": cause, "k": k}));
             }
         }
     }
-    vcore::write_ndjson(&out_client, &client_lines).expect("write");
-    vcore::write_ndjson(&out_broker, &broker_lines).expect("write");
+    client_out.flush().expect("flush");
+    broker_out.flush().expect("flush");
     println!(
         "{}",
         json!({"driver": "fault-sweep", "seed": seed, "programs": programs, "runs": runs, "triggered": triggered,
-            "victim_ops": ops_seen, "client_records": client_lines.len(), "broker_records": broker_lines.len(), "flagged": flagged})
+            "victim_ops": ops_seen, "client_records": client_records, "broker_records": broker_records, "flagged": flagged})
     );
 }
